@@ -16,16 +16,21 @@ import random
 
 import numpy as np
 
-from .common import children_of, make_tree, sorted_parent_tables
+from .common import CURRENT_LAYOUT, LAYOUTS, children_of, make_tree, sorted_parent_tables, using_layout
 
 MAX_REPORTS = 3
 ATTRS = ["id", "type", "x", "y", "z", "r", "pid"]
 
 
 # --------------------------------------------------------------------------- infrastructure
-def build(pid):
+def build(pid, allow_readonly=False):
+    """the tree of this case, its columns stored in the CURRENT layout (bounded/common.py: LAYOUTS; `run` iterates over them).  Checks that
+    write into the columns themselves take read-only columns only when they say so (`allow_readonly`); otherwise that layout is `separate`"""
     n = len(pid)
-    return make_tree(tuple(pid), level=np.arange(n, dtype=np.int32) * 3 + 100)
+    layout = CURRENT_LAYOUT[0]
+    if layout == "readonly" and not allow_readonly:
+        layout = "separate"
+    return make_tree(tuple(pid), layout=layout, level=np.arange(n, dtype=np.int32) * 3 + 100)
 
 
 def model_of(t):
@@ -61,15 +66,15 @@ class Rep:
         told = self.counts.setdefault(("reported",) + key, [])
         if len(told) < MAX_REPORTS and self.pid not in told:
             told.append(self.pid)
-            inp = dict(group=self.group, pid=self.pid, **detail)
-            spec = dict(group=self.group, pid=self.pid)
+            inp = dict(group=self.group, pid=self.pid, columns=CURRENT_LAYOUT[0], **detail)
+            spec = dict(group=self.group, pid=self.pid, layout=CURRENT_LAYOUT[0])
             if self.params is not None:
                 spec["params"] = self.params
             self.ctx.violation(carrier, clause, json.loads(json.dumps(inp, default=str)), observed, expected, spec)
 
     def item(self, detail):
         """One evaluated case of this group."""
-        self.ctx.case(self.group, json.loads(json.dumps(dict(pid=self.pid, **detail), default=str)), nontrivial=len(self.pid) >= 2)
+        self.ctx.case(self.group, json.loads(json.dumps(dict(pid=self.pid, columns=CURRENT_LAYOUT[0], **detail), default=str)), nontrivial=len(self.pid) >= 2)
 
     def guard(self, carrier, clause, detail, fn, default=None):
         """Call a library routine that must not fail on this in-domain input."""
@@ -107,7 +112,7 @@ def handle_reads(h, model, i, keys=None):
 
 # --------------------------------------------------------------------------- A. Tree[i]
 def check_index(rep, pid):
-    t = build(pid)
+    t = build(pid, allow_readonly=True)
     m, n = model_of(t), len(pid)
     for i in list(range(-n, n)) + [np.int32(-1), np.int64(n - 1), np.int32(-n)]:
         d = dict(index=int(i), kind=type(i).__name__)
@@ -238,11 +243,12 @@ def check_write(rep, pid):
         for k in ATTRS + ["level"]:
             # a) attribute assignment / item assignment on Tree[i], Tree[i-n], Tree.node(i)
             for how in ("Tree[i]", "Tree[i-n]", "Tree.node(i)", "Tree[i][k]=v"):
-                t = build(pid)
+                t = build(pid, allow_readonly=True)
                 m = model_of(t)
                 d = dict(node=i, key=k, via=how)
                 rep.item(d)
                 reader = t[i]  # an older handle that must see the write
+                refused = not t.ndata[k].flags.writeable  # numpy refuses a store into a read-only column (ValueError): so must the handle
                 try:
                     h = t[i] if how in ("Tree[i]", "Tree[i][k]=v") else t[i - n] if how == "Tree[i-n]" else t.node(i)
                     if how == "Tree[i][k]=v" or k == "level":
@@ -250,7 +256,14 @@ def check_write(rep, pid):
                     else:
                         setattr(h, k, WRITE_VALUES[k])
                 except Exception as e:
-                    rep.viol("Node.__setitem__", "write-through", d, f"{type(e).__name__}: {e}", "the cell is assigned")
+                    if refused and isinstance(e, ValueError):
+                        if tree_equals(t, m):
+                            rep.viol("Node.__setitem__", "write-through", d, f"refused write changed columns {tree_equals(t, m)}", "a refused write changes nothing")
+                    else:
+                        rep.viol("Node.__setitem__", "write-through", d, f"{type(e).__name__}: {e}", "the cell is assigned")
+                    continue
+                if refused:
+                    rep.viol("Node.__setitem__", "write-through", d, f"no exception; column now {lst(t.ndata[k])}", "ValueError: the owner's column is read-only, as a store into the column itself raises")
                     continue
                 if _expect_write(rep, "Node.__setitem__", t, m, i, k, d) and not eq(reader[k], m[k][i]):
                     rep.viol("Node.__getitem__", "attributes-at-call-time", d, f"older handle reads {lst(reader[k])}", f"{lst(m[k][i])}")
@@ -894,28 +907,36 @@ def run(ctx):
     n_inter = 1500 if quick else 20000
     counts = {}
     tables = [p for n in range(1, nmax + 1) for p in sorted_parent_tables(n)]
-    for pid in tables:
-        for g, fn in GROUPS.items():
-            rep = Rep(ctx, counts, g, pid, dict(quick=quick) if g == "slice" else None)
-            try:
-                if g == "slice":
-                    fn(rep, pid, quick)
-                else:
-                    fn(rep, pid)
-            except Exception as e:  # an oracle-side or library-side failure outside a guarded call: report, never hide
-                rep.viol("Tree", "operation-raises", dict(where=f"check_{g}"), f"{type(e).__name__}: {e}", "no exception")
+    others = [l for l in LAYOUTS if l != "separate"]
+    for ti, pid in enumerate(tables):
+        # storage layout of the columns: all of them for trees of <= 3 nodes (thorough tier: every tree), `separate` + two rotating others beyond
+        layouts = LAYOUTS if (len(pid) <= 3 or not quick) else ("separate", others[ti % len(others)], others[(ti + 3) % len(others)])
+        for layout in layouts:
+            with using_layout(layout):
+                for g, fn in GROUPS.items():
+                    rep = Rep(ctx, counts, g, pid, dict(quick=quick) if g == "slice" else None)
+                    try:
+                        if g == "slice":
+                            fn(rep, pid, quick)
+                        else:
+                            fn(rep, pid)
+                    except Exception as e:  # an oracle-side or library-side failure outside a guarded call: report, never hide
+                        rep.viol("Tree", "operation-raises", dict(where=f"check_{g}"), f"{type(e).__name__}: {e}", "no exception")
     for _ in range(n_inter):
         pid = rng.choice(tables)
         steps = random_steps(rng, rng.choice([2, 3, 4, 4]))
-        rep = Rep(ctx, counts, "interleave", pid, dict(steps=steps))
-        rep.item(dict(steps=steps))
-        check_interleave(rep, pid, steps)
+        with using_layout(rng.choice(LAYOUTS)):
+            rep = Rep(ctx, counts, "interleave", pid, dict(steps=steps))
+            rep.item(dict(steps=steps))
+            check_interleave(rep, pid, steps)
     _note_path_node_write(ctx)
     totals = {k: v for k, v in counts.items() if len(k) == 2}
     if totals:
         ctx.notes.append("C09 failing evaluations per (carrier, clause), at most " + str(MAX_REPORTS) + " trees of each reported individually: "
                          + ", ".join(f"{c}/{cl}={k}" for (c, cl), k in sorted(totals.items())))
-    ctx.rule(f"every sorted parent table with <= {nmax} nodes (8 columns: the SWC ones + `level`): all indices in [-n, n) and 5 outside, a grid of slices "
+    ctx.rule(f"columns handed to the constructor in the storage layouts {', '.join(LAYOUTS)} (bounded/common.py: lay_out; every layout for trees of <= 3 nodes, `separate` + two rotating "
+             "others for larger trees in the quick tier, a seeded one per interleaving; a write through a handle into a read-only column must raise ValueError and change nothing); "
+             f"every sorted parent table with <= {nmax} nodes (8 columns: the SWC ones + `level`): all indices in [-n, n) and 5 outside, a grid of slices "
              "(start, stop in {None, -n-1..n+1}, several steps), every (node, key) write through Tree[i] / Tree[i-n] / Tree.node / parent() / children(), every root-to-tip path, "
              "explicit index windows in arbitrary order, every downward chain as a branch (attached, detached) + Branch.from_xyzr, the tree's own segments, detach() of every "
              f"node / path / branch / compartment, Tree.copy, the adjacency matrix -- exhaustive over that scope; plus {n_inter} seeded interleavings of 2..4 steps from "
@@ -937,12 +958,13 @@ def replay(spec):
     pid = tuple(spec["pid"])
     g = spec["group"]
     rep = Rep(c, {}, g, pid, spec.get("params"))
-    if g == "interleave":
-        check_interleave(rep, pid, spec["params"]["steps"])
-    elif g == "slice":
-        check_slice(rep, pid, bool(spec.get("params", {}).get("quick", True)))
-    else:
-        GROUPS[g](rep, pid)
+    with using_layout(spec.get("layout", "separate")):
+        if g == "interleave":
+            check_interleave(rep, pid, spec["params"]["steps"])
+        elif g == "slice":
+            check_slice(rep, pid, bool(spec.get("params", {}).get("quick", True)))
+        else:
+            GROUPS[g](rep, pid)
     for v in c.v:
         print("  still failing:", v[:2], v[3:5])
     return not c.v
